@@ -313,8 +313,31 @@ class Extractor(object):
     def names_of (t):
       if isinstance(t, (ast.Tuple, ast.List)): return [field_name(x) for x in t.elts], list(t.elts)
       return [field_name(t)], [t]
+    pending = {}
+    def emit_fmt (fmt, ns, s):
+      vi = 0
+      for code, w in fmt_fields(fmt):
+        if code == 'x': L.append(Item('pad', w, 'pad', code='x', src=s)); continue
+        n = ns[vi] if vi < len(ns) else '?missing'; vi += 1
+        if n.lstrip('$_') in ('pad', 'pad1', 'pad2', 'pad3', '', 'padding') or n in ('$_',): L.append(Item('pad', w, 'pad', code=code, src=s))
+        elif code in 'sp': L.append(Item('raw', w, n, code=code, src=s))
+        elif n.lstrip('$') in ('length', 'len', 'l', '_length'): L.append(Item('len', w, n, code=code, src=s))
+        else: L.append(Item('int', w, n, code=code, src=s))
+      if vi != len(ns): raise Unknown("format %r yields %d values for %d targets" % (fmt, vi, len(ns)))
     def stmts (body):
       for s in body:
+        # the standard-library form: fields = struct.unpack_from(FMT, raw, offset) [; a, b, c = fields] (a precompiled Struct is
+        # rewritten to this by the normaliser); the cursor arithmetic that goes with it is not part of the layout
+        if isinstance(s, ast.Assign) and isinstance(s.value, ast.Call) and call_name(s.value) == 'unpack_from' and isinstance(s.value.func, ast.Attribute) and norm(s.value.func.value) == 'struct' and s.value.args:
+          fmt = self.const(s.value.args[0])
+          if not isinstance(fmt, str): raise Unknown("non-constant format")
+          tgt = s.targets[0]
+          if isinstance(tgt, (ast.Tuple, ast.List)): emit_fmt(fmt, names_of(tgt)[0], s)
+          elif isinstance(tgt, ast.Name): pending[tgt.id] = (fmt, s)
+          else: raise Unknown("unpack_from into %s" % norm(tgt))
+          continue
+        if isinstance(s, ast.Assign) and isinstance(s.value, ast.Name) and s.value.id in pending and isinstance(s.targets[0], (ast.Tuple, ast.List)):
+          fmt, s0 = pending.pop(s.value.id); emit_fmt(fmt, names_of(s.targets[0])[0], s0); continue
         if isinstance(s, ast.Assign) and isinstance(s.value, ast.Call):
           c = s.value; cn = call_name(c); tgt = s.targets[0]
           if cn == '_unpack' and c.args:
